@@ -166,14 +166,15 @@ def n2_validation(seconds=20, seed=1, use_cache=True):
     log = []
     text = A.e1_strip_tests(raw, log) if hasattr(A, 'e1_strip_tests') else V.e1_strip_tests(raw, log)
     n2 = (A.n2_retain if hasattr(A, 'n2_retain') else V.n2_retain)(text, log)
+    n2 = (A.n4_iter_any if hasattr(A, 'n4_iter_any') else V.n4_iter_any)(n2, log)
     os.makedirs(BUILD, exist_ok=True)
     n2path = os.path.join(BUILD, 'kt_n2.rs')
     open(n2path, 'w').write(n2)
-    key = hashlib.sha256((raw + '\0' + n2 + '\0%d %d n2v1' % (seconds, seed)).encode()).hexdigest()[:24]
+    key = hashlib.sha256((raw + '\0' + n2 + '\0%d %d n2v2' % (seconds, seed)).encode()).hexdigest()[:24]
     cpath = os.path.join(CACHE, 'n2-%s.json' % key)
     if use_cache and os.path.exists(cpath):
         return json.load(open(cpath))
-    out = dict(rule='N2', sites=sum(1 for l in log if 'N2' in l))
+    out = dict(rule='N2+N4', sites=sum(1 for l in log if 'N2' in l or 'N4' in l))
     try:
         exe = witness.build(extra_env={'VERIF_N2_FILE': n2path}, cfgs=('n2_validation',))
     except Exception as e:
